@@ -196,10 +196,12 @@ theorem mgrFlush_ret (P : Params) (f : D → Bytes → D) (m : M D) (r : Cid)
   · rename_i hc; simp only [hc, if_false]; exact retireMin_ret f _ m r h
 
 /-- side invariant of the context layer -/
-def Shape (B : Nat) (x : Ctx D) : Prop := x.part.length < B ∧ (x.part ≠ [] → x.incoming = [])
+def Shape (B : Nat) (x : Ctx D) : Prop :=
+  x.part.length < B ∧ (x.part ≠ [] → x.incoming = []) ∧ (x.complete = true → x.incoming = []) ∧
+  (x.processing = false → x.last = false ∧ x.incoming = [])
 
 theorem shape_of_sameUser {B : Nat} {x y : Ctx D} (h : sameUser x y) (hy : Shape B y) : Shape B x := by
-  obtain ⟨h1, h2, _⟩ := h
-  unfold Shape at *; rw [h1, h2]; exact hy
+  obtain ⟨h1, h2, h3, h4, _, h6, _⟩ := h
+  unfold Shape at *; rw [h1, h2, h3, h4, h6]; exact hy
 
 end IsalVerif.HashMB
